@@ -21,7 +21,20 @@ import (
 
 var Debug bool
 
-const depPrefix = "github.com/evolbioinfo/goalign"
+// the dependency packages loaded by the last ExtractDeps
+var lastDepPkgs []string
+
+// the scanned dependencies (module cache); cobra/pflag, gonum plot, draw2d (graphics) are not scanned
+var depPrefixes = []string{"github.com/evolbioinfo/goalign", "github.com/fredericlemoine/gostats", "github.com/fredericlemoine/bitset"}
+
+func isDep(path string) bool {
+	for _, p := range depPrefixes {
+		if path == p || strings.HasPrefix(path, p+"/") {
+			return true
+		}
+	}
+	return false
+}
 
 type depPkg struct {
 	path  string
@@ -81,7 +94,7 @@ func depRoots(repo string) (full map[string]bool, byName map[string]bool, import
 			}
 			for _, im := range f.Imports {
 				p := strings.Trim(im.Path.Value, "\"")
-				if strings.HasPrefix(p, depPrefix) {
+				if isDep(p) {
 					imports[p] = true
 					uses = true
 				}
@@ -96,7 +109,7 @@ func depRoots(repo string) (full map[string]bool, byName map[string]bool, import
 		rel, _ := filepath.Rel(repo, dir)
 		conf.Check("github.com/evolbioinfo/gotree/"+filepath.ToSlash(rel), fset, files, info)
 		for _, o := range info.Uses {
-			if fn, ok := o.(*types.Func); ok && fn.Pkg() != nil && strings.HasPrefix(fn.Pkg().Path(), depPrefix) {
+			if fn, ok := o.(*types.Func); ok && fn.Pkg() != nil && isDep(fn.Pkg().Path()) {
 				full[fn.FullName()] = true
 				if sig, ok := fn.Type().(*types.Signature); ok && sig.Recv() != nil {
 					if _, isIface := sig.Recv().Type().Underlying().(*types.Interface); isIface {
@@ -164,7 +177,7 @@ func ExtractDeps(repo string) (sites, sources []siteRec, notes []string) {
 			}
 			for _, im := range f.Imports {
 				ip := strings.Trim(im.Path.Value, "\"")
-				if strings.HasPrefix(ip, depPrefix) && pkgs[ip] == nil {
+				if isDep(ip) && pkgs[ip] == nil {
 					todo = append(todo, ip)
 				}
 			}
@@ -197,6 +210,7 @@ func ExtractDeps(repo string) (sites, sources []siteRec, notes []string) {
 		pnames = append(pnames, p)
 	}
 	sort.Strings(pnames)
+	lastDepPkgs = pnames
 	for _, pn := range pnames {
 		dp := pkgs[pn]
 		for _, f := range dp.files {
@@ -213,7 +227,7 @@ func ExtractDeps(repo string) (sites, sources []siteRec, notes []string) {
 				}
 				ast.Inspect(d, func(n ast.Node) bool {
 					if id, ok := n.(*ast.Ident); ok {
-						if fn, ok := dp.info.Uses[id].(*types.Func); ok && fn.Pkg() != nil && strings.HasPrefix(fn.Pkg().Path(), depPrefix) {
+						if fn, ok := dp.info.Uses[id].(*types.Func); ok && fn.Pkg() != nil && isDep(fn.Pkg().Path()) {
 							r.refs[fn.FullName()] = true
 							if sig, ok := fn.Type().(*types.Signature); ok && sig.Recv() != nil {
 								if _, isIface := sig.Recv().Type().Underlying().(*types.Interface); isIface {
@@ -282,8 +296,7 @@ func ExtractDeps(repo string) (sites, sources []siteRec, notes []string) {
 		if !reach[r] {
 			continue
 		}
-		fname := strings.TrimPrefix(r.pkg.path, depPrefix+"/") + "/" + filepath.Base(fset.Position(r.file.Pos()).Filename)
-		fname = "goalign:" + fname
+		fname := "dep:" + strings.TrimPrefix(r.pkg.path, "github.com/") + "/" + filepath.Base(fset.Position(r.file.Pos()).Filename)
 		s1, s2 := scanDecl(fset, r.pkg.info, r.decl, fname, "dep")
 		sites = append(sites, s1...)
 		sources = append(sources, s2...)
